@@ -39,6 +39,10 @@ ROOTS = {
     "seeded": [py("m.A.new_cells('x', formula='lambda: 1')"), py("m.B.y = 2"), py("m.C.new_space('x')"),
                py("m.C.add_bases(m.B)")],
     "param": [py("m.A.formula = 'lambda x: None'"), py("m.B.add_bases(m.A)"), py("m.A[1]")],
+    # a model-level reference exists before space-level ones of the same name are created (shadowing), with a
+    # parametrised space, a child space in it and a sub space
+    "shadow": [py("m.A.formula = 'lambda x: None'"), py("m.y = 7"), py("m.A.new_space('T')"),
+               py("m.B.add_bases(m.A)"), py("m.A[1]")],
 }
 
 
@@ -58,7 +62,7 @@ def alphabet(rootname):
                 ops.append(py("m.%s.remove_bases(m.%s)" % (s, t)))
     ops += [py("m.x = 7"), py("del m.x"), py("m.new_space('x')"), py("m.A = 1"), py("m.A.rename('x')"),
             py("m.y = m.A"), py("del m.y")]
-    if rootname == "param":
+    if rootname in ("param", "shadow"):
         ops += [py("m.A.formula = 'lambda y: None'"), py("m.A.formula = 'lambda x, y=0: None'"), py("m.A[1]"),
                 py("m.B[2]"), py("m.A.new_space('Q', formula='lambda x: None')"), py("m.A[1].Q[2]")]
     return ops
@@ -98,6 +102,30 @@ def check_space(s, m, bad):
         if both:
             bad("one-kind", {"space": path, "names": both, "kinds": [an, bn]}, "a name denotes one kind of thing")
             return
+    # precedence among references: a space-level reference hides the model-level one of the same name - in the
+    # space itself and in every dynamic space built from it (where nothing of that space's own overrides it)
+    def same_value(a, b):
+        return a is b or (type(a) is type(b) and not hasattr(a, "_impl") and safe(lambda: a == b) is True)
+    mrefs = safe(lambda: dict(m.refs))
+    if isinstance(mrefs, dict):
+        if not impl.is_dynamic():
+            for n in sorted(set(own) & set(mrefs)):
+                if not same_value(refs.get(n), own[n]):
+                    bad("refs-precedence", {"space": path, "name": n, "refs[name]": render(refs.get(n)),
+                                            "model-level": render(mrefs[n])}, {"space-level": render(own[n])})
+                    return
+        else:
+            base = safe(lambda: impl._dynbase.interface)
+            bown = safe(lambda: dict(base._own_refs)) if not isinstance(base, str) else "x"
+            if isinstance(bown, dict):
+                for n in sorted(set(bown) & set(mrefs)):
+                    if n in own or hasattr(bown[n], "_impl"):
+                        continue        # overridden by the dynamic space itself / an object that is re-bound
+                    if not same_value(refs.get(n), bown[n]):
+                        bad("refs-precedence", {"space": path, "name": n, "refs[name]": render(refs.get(n)),
+                                                "model-level": render(mrefs[n])},
+                            {"space-level (base %s)" % space_path(base): render(bown[n])})
+                        return
     # parameters vs members
     params = safe(lambda: list(s.parameters) if s.parameters else [])
     # expected visible names
